@@ -767,8 +767,9 @@ impl<'a> Runtime<'a> {
                 let slot = mem::replace(slot, Value::Null);
                 Ok(slot)
             }
-            Expr::Member { .. } => {
-                unreachable!("Semantic analysis guarantees member access is always a function call")
+            // A member that is not called (`x.len`) has no value
+            Expr::Member { span, .. } => {
+                Err(RuntimeError::new(RuntimeErrorKind::TypeMismatch, *span))
             }
             Expr::Call { .. } => self.eval_function_call(expr),
         }
@@ -786,7 +787,8 @@ impl<'a> Runtime<'a> {
 
         let func_name = match callee {
             Expr::Var(name, ..) => *name,
-            _ => unreachable!("Semantic analysis guarantees callee is variable or member"),
+            // Only named functions and methods can be called (`f()()`, `a[0]()` cannot)
+            _ => return Err(RuntimeError::new(RuntimeErrorKind::TypeMismatch, *span)),
         };
 
         if let Some(builtin) = GlobalBuiltin::from_name(func_name) {
